@@ -13,3 +13,21 @@ for name, spec in SETS:
                     note='bit_at(SET,c) <=> c in the Standard\'s set, all 256 byte values'))
 OBLS.append(Obl('C11.hex.table', ['C11', 'C05'], 'P#', 'c11/hex_table.c', globals=[('hex', 'const char[1024]')],
                 includes=['spec/urlspec.h'], timeout=120, note='hex[4c..4c+3] = % HI LO NUL upper-case, all 256 values'))
+
+INC = ['spec/urlspec.h', 'spec/scan.h', 'spec/ref_pct.h']
+for fn in ('percent_encode', 'percent_encode_idx', 'percent_encode_append', 'percent_encode_overwrite'):
+    OBLS.append(Obl('C11.%s.exact/b4' % fn, ['C11', 'C05', 'C02'], 'B(4)', 'c11/encode_%s.c' % fn,
+                    roots=[fn] + (['percent_encode_index'] if fn == 'percent_encode_idx' else []),
+                    bufn=4, unwind=16, defines=['STR_CAP=14', 'BUF_START=1'], includes=INC, solver='cadical', timeout=900,
+                    bound='input <= 4 bytes, arbitrary 256-bit set, output capacity 14',
+                    note='encoder entry point == reference "percent-encode after encoding" for an arbitrary set'))
+OBLS.append(Obl('C11.percent_decode.exact/b7', ['C11', 'C12', 'C02'], 'B(7)', 'c11/decode_exact.c', roots=['percent_decode', 'form_urlencoded_decode'],
+                bufn=7, unwind=9, defines=['STR_CAP=8', 'BUF_START=1'], includes=INC, globals=[], solver='cadical', timeout=900, bound='input <= 7 bytes',
+                note='percent_decode and form_urlencoded_decode == the Standard\'s percent-decode (malformed escapes literal, + -> space)'))
+OBLS.append(Obl('C11.decode_encode.roundtrip/b4', ['C11', 'C12', 'C02'], 'B(4)', 'c11/roundtrip.c', roots=['percent_encode', 'percent_decode', 'form_urlencoded_decode'],
+                bufn=4, unwind=14, defines=['STR_CAP=12', 'BUF_START=1'], includes=INC, globals=[('WWW_FORM_URLENCODED_PERCENT_ENCODE', U8_32)], solver='kissat', timeout=900,
+                bound='input <= 4 bytes, arbitrary set containing %', note='decode(encode_S(x)) == x whenever % is in S; form codec round trip with space/+'))
+both_args = dict(roots=['percent_encode_index'], specs={'percent_encode_index': 'percent_encode_index.spec'}, enforce='percent_encode_index',
+                 loop_contracts=True, includes=INC)
+OBLS.append(Obl('C11.percent_encode_index.first', ['C11', 'C02'], 'Pinf', 'auto', solver='kissat', timeout=900,
+                note='first index whose byte is in the (arbitrary) set, else size; 8-byte unrolled loop + tail; any length', **both_args))
